@@ -12,7 +12,7 @@ for sid in ids:
     own=meta["property"]
     if sid=="C14-3": own="C15"   # C14's oracle is, correctly, silent on C14-3 (see DESIGN 8)
     env=dict(os.environ, MUT_SEEDS=seeds, MUT_DIR="/root/scratch/mut5")
-    out=subprocess.run([V+"/tools/mutcheck.sh",f"{V}/seeded/{sid}/patch.diff",own],capture_output=True,text=True,env=env).stdout
+    out=subprocess.run([V+"/tools/mutcheck.sh",f"{V}/seeded/{sid}/patch.diff",own],capture_output=True,text=True,errors="replace",env=env).stdout
     r=res.setdefault(sid,{"check":own,"by_seed":{}})
     for line in out.splitlines():
         if line.startswith("== "):
